@@ -185,6 +185,11 @@ class Replay:
                 rows = [parse_row(r) for r in op[1:]]
                 written = written + [(k, r) for r in rows]
                 self.events.append(("b", k, rows))
+            elif name.startswith("nm"):
+                # liaison-side merge of node answers: a query over everything the nodes returned
+                k = int(name[2:])
+                rows = [parse_row(r) for r in op[2:] if r != "|"]
+                self.events.append(("q", k, sorted({r.sid for r in rows}), I64MIN, I64MAX, op[1], [(k, r) for r in rows]))
             elif name[0] == "q":
                 k = int(name[1:])
                 sids = [int(x) for x in op[1].split(",")]
@@ -537,7 +542,7 @@ def case_big(rng, kind, cfg_len=8192):
 BATCH_ROWS = 4096     # mergeBatchMaxRows (query_batch.go); tied in Tie/C02.lean batch_rows_tie
 
 
-def case_batch(rng, kind, batch_rows=BATCH_ROWS):
+def case_batch(rng, kind, batch_rows=BATCH_ROWS, maint=False):
     """the columnar read path cuts its output into batches of mergeBatchMaxRows rows: series of a little more than
     one (or two) batches, with (series, timestamp) keys written two or three times - in different parts - exactly
     at the rows in front of / at / behind a batch boundary, in ascending and descending order, over full and
@@ -585,7 +590,15 @@ def case_batch(rng, kind, batch_rows=BATCH_ROWS):
     d = rng.choice([1, 2, 3])
     h.query(0, qsids, t0 + d * step, hi, "ta")
     h.query(0, qsids, lo, t0 + (nmax - 1 - d) * step, rng.choice(["td", "s"]))
-    if rng.random() < 0.5:
+    if maint:
+        # C03: the same queries after flushing everything and after merging everything
+        regs = [op for op in h.ops if op.startswith("q0 ")]
+        h.flush(list(h.mem))
+        h.ops += regs
+        if len(h.file) > 1:
+            h.merge(list(h.file))
+            h.ops += regs[:2]
+    elif rng.random() < 0.5:
         pool = h.file if len(h.file) > 1 else h.mem
         if len(pool) > 1:
             h.merge(rng.sample(pool, 2))
@@ -624,6 +637,29 @@ def case_many(rng, kind):
 
 
 
+def case_nodes(rng, kind):
+    """cluster mode: the copies of a (series, timestamp) live on different data nodes; every node answers with its own
+    resolved, time-sorted rows and the liaison merges the answers (several series share a timestamp)"""
+    ops = []
+    for _ in range(rng.randint(1, 4)):
+        order = rng.choice(["ta", "td"])
+        sids = rng.sample([1, 2, 3, 4, 7, U64 - 1], rng.randint(1, 4))
+        tss = rng.sample([0, 1, 2, 3, 5, 1000, 10 ** 9, 2 * 10 ** 9 + 5, 1700000000123456789], rng.randint(1, 4))
+        vers = rng.sample([0, 1, 2, 3, 5, 9], rng.randint(2, 4))
+        nodes = []
+        for n in range(rng.randint(1, 4)):
+            rows = []
+            for sid in sids:
+                for ts in tss:
+                    if rng.random() < 0.7:
+                        rows.append(Row(sid, ts, rng.choice(vers), ["s4%d" % (n + 1), "i%d" % rng.randint(0, 99)]))
+            rng.shuffle(rows)
+            rows.sort(key=(lambda r: r.ts) if order == "ta" else (lambda r: -r.ts))
+            nodes.append(" ".join(r.tok() for r in rows))
+        ops.append(("nm0 %s %s" % (order, " | ".join(nodes))).replace("  ", " ").strip())
+    return "%s %s ; %s" % (kind, S_C02, " ; ".join(ops))
+
+
 # ----------------------------------------------------------------------------------------------
 # shrinker (delta debugging on rows, then on ops)
 
@@ -649,7 +685,7 @@ def shrink_line(line, still_fails, budget=40):
     while changed and tries[0] < budget:
         changed = False
         for i in range(len(cur)):
-            if cur[i][0] in ("d", "tc") or (cur[i][0][0] == "q" and i != len(cur) - 1):
+            if cur[i][0] in ("d", "tc") or (cur[i][0][0] == "q" and i != len(cur) - 1) or (cur[i][0].startswith("nm") and len(cur) > 1):
                 cand = cur[:i] + cur[i + 1:]
                 if ok(cand):
                     cur = cand
@@ -716,10 +752,12 @@ class C02(StoreSpec):
         "dedupBatch_spec", "dedupBatch_blocks", "dedupBatch_legacy_counterexample", "dedupBatch_legacy_partial",
         "mergeLoop_terminates", "mergeTwoBlocks_spec", "mergeStream_spec", "mergeParts_spec",
         "queryMerge_spec", "minIdx_isMinChoice", "query_isResolution",
+        "queryMergeBatch_spec", "batch_path_eq_row_path", "version_wins_any_history_batch", "mergeBatch_legacy_counterexample", "nodeMerge_spec",
         "version_wins_any_history", "version_wins_order_independent",
     ]] + ["Banyan.Tie.C02." + t for t in ["maxLen_tie", "maxSize_tie", "init_guard_tie", "mem_split_tie",
                                           "less_version_desc_tie", "merge_left_wins_tie", "merge_blocks_shape_tie",
-                                          "query_replace_strict_tie", "query_less_version_desc_tie"]]
+                                          "query_replace_strict_tie", "query_less_version_desc_tie",
+                                          "batch_rows_tie", "batch_cut_tie", "batch_replace_strict_tie", "node_dedup_tie"]]
     lean_driver = "C02"
     counts = {"quick": 2400, "thorough": 60000}
     trusted_base = [
@@ -748,7 +786,10 @@ class C02(StoreSpec):
         nbig = 6 if n < 10000 else 60
         nbat = 8 if n < 10000 else 120
         nmany = 2 if n < 10000 else 20
-        for i in range(n - nbig - nbat - nmany):
+        nnodes = 150 if n < 10000 else 3000
+        for i in range(nnodes):
+            out.append(case_nodes(rng, "nodes"))
+        for i in range(n - nbig - nbat - nmany - nnodes):
             r = rng.random()
             if r < 0.55:
                 out.append(case_history(rng, "dup"))
